@@ -482,7 +482,7 @@ func c11(r *ev.Run) {
 	rnd := rand.New(rand.NewSource(r.Seed + 11))
 	thorough := r.Tier == "thorough"
 	cases := append(c11DownstreamCases(rnd, thorough), c11BackendCases(rnd, thorough)...)
-	os.MkdirAll(ev.Root+"/run/C11", 0o755)
+	os.MkdirAll(ev.RunDir("C11"), 0o755)
 	if only := os.Getenv("VERIF_C11_ONLY"); only != "" { // debugging aid: the volume requirements below then report the run inconclusive
 		var kept []hostileCase
 		for _, c := range cases {
@@ -518,8 +518,8 @@ func c11(r *ev.Run) {
 		}
 		e.batchN++
 		// the input is on disk before it is sent
-		os.WriteFile(fmt.Sprintf("%s/run/C11/case-current.bin", ev.Root), c.Data, 0o644)
-		os.WriteFile(fmt.Sprintf("%s/run/C11/case-current.txt", ev.Root), []byte(fmt.Sprintf("%d %s %s %s", ci, c.Side, c.Class, c.ReqClass)), 0o644)
+		os.WriteFile(fmt.Sprintf("%s/case-current.bin", ev.RunDir("C11")), c.Data, 0o644)
+		os.WriteFile(fmt.Sprintf("%s/case-current.txt", ev.RunDir("C11")), []byte(fmt.Sprintf("%d %s %s %s", ci, c.Side, c.Class, c.ReqClass)), 0o644)
 		hwmBefore := vmHWMkB(e.s.Pid())
 		caseStart := time.Now()
 		outcome := "?"
